@@ -1,52 +1,88 @@
 /-
   C14 — Derived objects never share state with, or mutate, the objects they came from.
   Property theorems about the heap model `Model/Heap.lean` (helper lemmas: Proofs/C14Lemmas.lean,
-  Proofs/C14Spec.lean).  No Mathlib.
+  Proofs/C14Spec.lean, Proofs/C14Any.lean).  No Mathlib.
 
   The model is tied to `_datacollectionbase.py`, `datacollection.py`, `datacollectionimmutable.py`,
   `header.py`, `windrose.py` by the sharing-signature correspondence of harness/props/c14.py
-  (`Mode.fixed` = the tree with fixes/C14_*.patch; `Mode.pinned` = the pinned tree, used only by the
+  (`Mode.fixed` = the tree as repaired; `Mode.pinned` = the tree as it was pinned, used only by the
   `_counterexample` theorems below).
+
+  Live objects are collections, plain Python lists the caller holds (and passes as arguments) and the
+  argument list of `compute_function_aligned`; `obsA` is what is observed of each, `Inv anyFP h live`
+  says that the live objects are well formed and separated.
 -/
-import Ladybug.Proofs.C14Spec
+import Ladybug.Proofs.C14Any
 
 namespace LbHeap
 
+theorem live_lt {h : Heap} {live : List Nat} (inv : Inv anyFP h live) : ∀ b ∈ live, b < h.next :=
+  fun b hb => ltA inv.1 (inv.2.1 b hb) b (self_mem_readsA (inv.2.1 b hb))
+
+/-- The target of a successful collection mutator is a well-formed collection. -/
+theorem typed_target {h : Heap} {live : List Nat} {a : Nat} (inv : Inv anyFP h live) (ha : a ∈ live)
+    {s : Src} (hs : src h a = .ok s) : Typed h a :=
+  typed_of_typedA (src_ok hs).1 (inv.2.1 a ha)
+
+theorem src_of_mutate {m : Mode} {h h' : Heap} {a : Nat} {op : MOp} (e : mutate m h a op = .ok h') :
+    ∃ s, src h a = .ok s := by
+  unfold mutate at e
+  cases hs : src h a with
+  | error x => simp [hs, bind, Except.bind] at e
+  | ok s => exact ⟨s, rfl⟩
+
 /-! ### Frame theorem -/
 
-/-- **Frame.**  In a heap whose live collections are separated (no live collection reads a header,
-    metadata dict or values list that another one may overwrite), any successful mutator
-    (`convert_to_unit/ip/si`, `values =`, `__setitem__`, `header.metadata[k] = v`, `header.metadata = …`,
-    `convert_to_culled_timestep`) applied to `a` leaves the snapshot (values, unit, data type, period,
-    metadata, datetimes, class, flags) of every other live collection `b` unchanged — for the pinned and
-    for the fixed code alike.  A failing mutator returns no heap at all (`Except.error`). -/
+/-- **Frame.**  In a heap whose live objects are separated (no live object reads a header, metadata
+    dict, nested metadata list or values list that another one may overwrite), any successful mutator
+    (`convert_to_unit/ip/si`, `values =` with a literal or with a list the caller holds, `__setitem__`,
+    `header.metadata[k] = v`, `header.metadata[k].append(x)`, `header.metadata = …`,
+    `convert_to_culled_timestep`) applied to collection `a` leaves what is observed of every other live
+    object `b` unchanged – the snapshot of a collection (values, unit, data type, period, metadata with
+    nested lists read through, datetimes, class, flags), the content of a caller's list, the items of an
+    argument list – for the pinned and for the fixed code alike.  A failing mutator returns no heap. -/
 theorem C14_frame {m : Mode} {h h' : Heap} {live : List Nat} {a b : Nat} {op : MOp}
-    (inv : Inv h live) (ha : a ∈ live) (hb : b ∈ live) (ne : b ≠ a)
-    (e : mutate m h a op = .ok h') : obs h' b = obs h b :=
-  (local_inv inv ha (mutate_local inv.1 (inv.2.1 a ha) e)).2 b hb ne
+    (inv : Inv anyFP h live) (ha : a ∈ live) (hb : b ∈ live) (ne : b ≠ a)
+    (e : mutate m h a op = .ok h') : obsA h' b = obsA h b := by
+  obtain ⟨s, hs⟩ := src_of_mutate e
+  have ty := typed_target inv ha hs
+  exact (local_inv anyFP inv ha (localA_of_coll ty (mutate_local inv.1 ty e))).2 b hb ne
 
-/-- Mutators keep the live collections separated (a mutator re-points its target only to new cells). -/
+/-- Mutators keep the live objects separated (a mutator re-points its target only to new cells). -/
 theorem C14_sep_preserved_mutate {m : Mode} {h h' : Heap} {live : List Nat} {a : Nat} {op : MOp}
-    (inv : Inv h live) (ha : a ∈ live) (e : mutate m h a op = .ok h') : Inv h' live :=
-  (local_inv inv ha (mutate_local inv.1 (inv.2.1 a ha) e)).1
+    (inv : Inv anyFP h live) (ha : a ∈ live) (e : mutate m h a op = .ok h') : Inv anyFP h' live := by
+  obtain ⟨s, hs⟩ := src_of_mutate e
+  have ty := typed_target inv ha hs
+  exact (local_inv anyFP inv ha (localA_of_coll ty (mutate_local inv.1 ty e))).1
+
+/-- **The caller's own list.**  When the caller edits a list he holds (`lst[i] = x`, `lst.append(x)`),
+    no collection – in particular none that was built from that list, received it through the values
+    setter, `get_aligned_collection(value=lst)` or a constructor – changes; and the objects stay
+    separated. -/
+theorem C14_frame_list {h h' : Heap} {live : List Nat} {a : Nat} {op : LOp}
+    (inv : Inv anyFP h live) (ha : a ∈ live) (e : mutList h a op = .ok h') :
+    Inv anyFP h' live ∧ ∀ b ∈ live, b ≠ a → obsA h' b = obsA h b :=
+  local_inv anyFP inv ha (mutList_local inv.1 e)
 
 /-! ### Deriving operations -/
 
 /-- **Argument hygiene of every deriving operation** (arithmetic, filters, `to_unit/ip/si`, `duplicate`,
-    `to_mutable/to_immutable`, `to_discontinuous`, `get_aligned_collection`, aggregations, validation,
-    interpolation, culling, `compute_function_aligned`): the call only allocates, so the snapshot of every
-    live collection – the operands included – is what it was; when the call fails there is no new heap.
-    Holds for the pinned code too (its defects are aliasing, not editing, except WindRose: see below). -/
+    `to_mutable/to_immutable`, `to_discontinuous`, `get_aligned_collection` – also with the caller's list
+    as value –, aggregations, validation, interpolation, culling, `compute_function_aligned` – also with
+    the caller's own argument list –, `normalize_by_area`, `aggregate_by_area`, `to_time_aggregated`,
+    `to_time_rate_of_change`): the call only allocates, so what is observed of every live object – the
+    operands, the caller's lists – is what it was; when the call fails there is no new heap. -/
 theorem C14_args_unchanged_derive {m : Mode} {h h' : Heap} {live : List Nat} {c r : Nat} {op : DOp}
-    (inv : Inv h live) (e : derive m h c op = .ok (h', r)) : ∀ b ∈ live, obs h' b = obs h b :=
-  fun b hb => (obs_ext inv.1 (derive_ext inv.1 e).1 (inv.2.1 b hb)).1
+    (inv : Inv anyFP h live) (e : derive m h c op = .ok (h', r)) : ∀ b ∈ live, obsA h' b = obsA h b :=
+  fun b hb => (anyFP.ext inv.1 (derive_ext inv.1 e).1 (inv.2.1 b hb)).1
 
 /-- **Separation is preserved by every deriving operation of the fixed code**: the result gets a new
-    header, a new metadata dict and new values (or, for an immutable result, the source's tuple); it may
-    share the analysis-period object, which has no setters. -/
+    header, a new metadata dict whose nested lists are new lists (deep copy) and new values (or, for an
+    immutable result, the source's tuple); it may share the analysis-period object, which has no
+    setters.  In particular the result never holds a list the caller passed in. -/
 theorem C14_sep_preserved_derive {h h' : Heap} {live : List Nat} {c r : Nat} {op : DOp}
-    (inv : Inv h live) (e : derive .fixed h c op = .ok (h', r)) :
-    Inv h' (live ++ [r]) ∧ h.next ≤ r := by
+    (inv : Inv anyFP h live) (e : derive .fixed h c op = .ok (h', r)) :
+    Inv anyFP h' (live ++ [r]) ∧ h.next ≤ r := by
   unfold derive at e
   split at e
   · cases e
@@ -58,22 +94,96 @@ theorem C14_sep_preserved_derive {h h' : Heap} {live : List Nat} {c r : Nat} {op
       have fr := mkColl_fresh inv.1 (copying_of_shape hs (specOf_fixed_shape hs hsp))
       rw [e'] at fr
       simp only at fr
-      refine ⟨(fresh_inv inv fr).1, ?_⟩
-      obtain ⟨k, hd, _, _, _, _, e1, e2, _⟩ := fr.typed
-      exact fr.owned_new _ (by simp [owned, foot_of_typed e1 e2])
+      exact ⟨(fresh_inv anyFP inv (live_lt inv) (freshA_of_coll fr)).1, fr.self_new⟩
 
-/-- `Header.duplicate()` as used by every copying operation: new header cell, new metadata dict, new
-    period object, same observable content. -/
-theorem C14_header_duplicate_fresh (s : Src) :
-    ∃ m ap, dupHdr s = .new s.hd.dtype s.hd.unit (.new ap) (.new m) ∧ m = s.md ∧ ap = s.ap :=
-  ⟨_, _, rfl, rfl, rfl⟩
+/-- A copying spec (new header, deep-copied metadata, new values) always gives a separated object. -/
+theorem C14_copying_separated {h : Heap} {live : List Nat} (inv : Inv anyFP h live) {sp : NewSpec}
+    (cp : sp.Copying h) :
+    Inv anyFP (mkColl h sp).1 (live ++ [(mkColl h sp).2]) ∧ h.next ≤ (mkColl h sp).2 ∧
+    ∀ b ∈ live, obsA (mkColl h sp).1 b = obsA h b :=
+  have fr := mkColl_fresh inv.1 cp
+  ⟨(fresh_inv anyFP inv (live_lt inv) (freshA_of_coll fr)).1, fr.self_new,
+   (fresh_inv anyFP inv (live_lt inv) (freshA_of_coll fr)).2⟩
+
+theorem build_copying (h : Heap) (cls : Cls) (mt vd : Bool) (dt u : Nat) (ap : List Nat)
+    (md : List (Nat × OV)) (dts : List Nat) (vals : List Rat) :
+    NewSpec.Copying h ⟨.new dt u (.new ap) (.new md), newVals mt vals, dts, mt, cls, vd⟩ := by
+  refine ⟨⟨_, _, _, _, rfl, fun r hr => by cases hr⟩, fun r hr => by simp [newVals] at hr, ?_⟩
+  intro v t hv hb
+  simp only [newVals, ValSrc.new.injEq] at hv
+  simp only at hb
+  rw [← hv.2, hb]; rfl
+
+/-- A collection built from new parts – also when its values come from a list the caller holds
+    (`list(values)` in the values setter) – is separated from everything that exists. -/
+theorem C14_build_separated {h : Heap} {live : List Nat} (inv : Inv anyFP h live) (cls : Cls)
+    (mt vd : Bool) (dt u : Nat) (ap : List Nat) (md : List (Nat × OV)) (dts : List Nat) (vals : List Rat) :
+    Inv anyFP (build h cls mt vd dt u ap md dts vals).1
+      (live ++ [(build h cls mt vd dt u ap md dts vals).2]) ∧
+    ∀ b ∈ live, obsA (build h cls mt vd dt u ap md dts vals).1 b = obsA h b :=
+  have r := C14_copying_separated inv (build_copying h cls mt vd dt u ap md dts vals)
+  ⟨r.1, r.2.2⟩
+
+/-! ### WindRose -/
+
+/-- **WindRose construction (fixed code)** keeps two new immutable collections: the caller's direction
+    and analysis collections – and every other live object – are unchanged, and the chart's collections
+    are separated from them (so later edits on either side do not show on the other). -/
+theorem C14_windrose_fixed {h h' : Heap} {live : List Nat} {d a rd ra : Nat} (inv : Inv anyFP h live)
+    (e : windrose .fixed h d a = .ok (h', rd, ra)) :
+    Inv anyFP h' (live ++ [rd] ++ [ra]) ∧ (∀ b ∈ live, obsA h' b = obsA h b) ∧ h.next ≤ rd ∧ rd < ra := by
+  unfold windrose at e
+  cases hd : src h d with
+  | error x => simp [hd, bind, Except.bind] at e
+  | ok sd =>
+    cases ha : src h a with
+    | error x => simp [hd, ha, bind, Except.bind] at e
+    | ok sa =>
+      simp only [hd, ha, bind, Except.bind, pure, Except.pure] at e
+      split at e
+      · cases e
+      split at e
+      · cases e
+      split at e
+      · cases e
+      split at e
+      · cases e
+      rename_i h2 ra' e2
+      have e' := Except.ok.inj e
+      simp only [Prod.mk.injEq] at e'
+      obtain ⟨rfl, rfl, rfl⟩ := e'
+      have cp := copying_of_shape hd
+        (shape_dup sd none none none none false (sd.vals.map ratMod360) sd.k.dts sd.k.cls
+          (if sd.k.cls = .hc then true else sd.k.validated))
+      have i1 := C14_copying_separated inv cp
+      have i2 := C14_sep_preserved_derive i1.1 e2
+      refine ⟨i2.1, fun b hb => ?_, i1.2.1, ?_⟩
+      · rw [C14_args_unchanged_derive i1.1 e2 b (List.mem_append_left _ hb)]
+        exact i1.2.2 b hb
+      · have := live_lt i1.1 _ (List.mem_append_right _ (List.mem_singleton_self _))
+        exact Nat.lt_of_lt_of_le this i2.2
 
 /-! ### Histories -/
 
-/-- One step of a history on the fixed code; `i`, `j` index the list of live collections. -/
+/-- One step of a history on the fixed code; `i`, `j` index the list of live objects. -/
 inductive Step
+  /-- a deriving operation on live collection `i` -/
   | derive (i : Nat) (op : DOp)
+  /-- a mutator on live collection `i` -/
   | mutate (i : Nat) (op : MOp)
+  /-- `WindRose(live[i], live[j])`: its two collections become live -/
+  | windrose (i j : Nat)
+  /-- a new source collection -/
+  | build (cls : Cls) (mt vd : Bool) (dt u : Nat) (ap : List Nat) (md : List (Nat × OV))
+      (dts : List Nat) (vals : List Rat)
+  /-- a constructor call with the caller's list `live[i]` as values -/
+  | buildFrom (cls : Cls) (mt vd : Bool) (dt u : Nat) (ap : List Nat) (md : List (Nat × OV))
+      (dts : List Nat) (i : Nat)
+  /-- the caller creates a list / an argument list -/
+  | newList (v : List Rat)
+  | newArgs (l : List Operand)
+  /-- the caller edits his list `live[i]` -/
+  | listMut (i : Nat) (op : LOp)
 
 structure St where
   h : Heap
@@ -95,73 +205,181 @@ def step (st : St) : Step → St
       match mutate .fixed st.h c op with
       | .ok h' => ⟨h', st.live⟩
       | .error _ => st
+  | .windrose i j =>
+    match st.live[i]?, st.live[j]? with
+    | some d, some a =>
+      match windrose .fixed st.h d a with
+      | .ok (h', rd, ra) => ⟨h', st.live ++ [rd] ++ [ra]⟩
+      | .error _ => st
+    | _, _ => st
+  | .build cls mt vd dt u ap md dts vals =>
+    ⟨(build st.h cls mt vd dt u ap md dts vals).1, st.live ++ [(build st.h cls mt vd dt u ap md dts vals).2]⟩
+  | .buildFrom cls mt vd dt u ap md dts i =>
+    match st.live[i]? with
+    | none => st
+    | some l =>
+      match buildFrom st.h cls mt vd dt u ap md dts l with
+      | .ok (h', r) => ⟨h', st.live ++ [r]⟩
+      | .error _ => st
+  | .newList v => ⟨(newList st.h v).1, st.live ++ [(newList st.h v).2]⟩
+  | .newArgs l => ⟨(newArgs st.h l).1, st.live ++ [(newArgs st.h l).2]⟩
+  | .listMut i op =>
+    match st.live[i]? with
+    | none => st
+    | some c =>
+      match mutList st.h c op with
+      | .ok h' => ⟨h', st.live⟩
+      | .error _ => st
 
 def run (st : St) (l : List Step) : St := l.foldl step st
 
-/-- Does the step apply a mutator to live object number `j`? -/
+/-- Does the step edit live object number `j` in place? -/
 def Step.touches (j : Nat) : Step → Bool
   | .mutate i _ => i = j
-  | .derive _ _ => false
+  | .listMut i _ => i = j
+  | _ => false
 
-/-- Separated, and no object listed twice, all below `next`. -/
-def Good (st : St) : Prop := Inv st.h st.live ∧ st.live.Nodup
+/-- Separated, and no object listed twice. -/
+def Good (st : St) : Prop := Inv anyFP st.h st.live ∧ st.live.Nodup
+
+theorem nodup_append_fresh {h : Heap} {live : List Nat} (inv : Inv anyFP h live) (nd : live.Nodup)
+    {r : Nat} (hr : h.next ≤ r) : (live ++ [r]).Nodup := by
+  refine List.nodup_append.2 ⟨nd, by simp, ?_⟩
+  intro x hx y hy
+  simp only [List.mem_cons, List.not_mem_nil, or_false] at hy
+  subst hy
+  have := live_lt inv x hx
+  omega
+
+theorem index_ne {live : List Nat} (nd : live.Nodup) {i j : Nat} {c b : Nat}
+    (hc : live[i]? = some c) (hj : live[j]? = some b) (ht : ¬ i = j) : b ≠ c := by
+  intro e'
+  subst e'
+  obtain ⟨hi1, hi2⟩ := List.getElem?_eq_some_iff.1 hc
+  obtain ⟨hj1, hj2⟩ := List.getElem?_eq_some_iff.1 hj
+  exact ht ((List.getElem_inj nd).1 (hi2.trans hj2.symm))
 
 theorem step_good (st : St) (g : Good st) (s : Step) :
     Good (step st s) ∧ (∃ extra, (step st s).live = st.live ++ extra) ∧
-    ∀ j b, st.live[j]? = some b → s.touches j = false → obs (step st s).h b = obs st.h b := by
+    ∀ j b, st.live[j]? = some b → s.touches j = false → obsA (step st s).h b = obsA st.h b := by
   obtain ⟨inv, nd⟩ := g
+  have stay : Good st ∧ (∃ extra, st.live = st.live ++ extra) ∧
+      ∀ j b, st.live[j]? = some b → s.touches j = false → obsA st.h b = obsA st.h b :=
+    ⟨⟨inv, nd⟩, ⟨[], by simp⟩, fun _ _ _ _ => rfl⟩
   cases s with
   | derive i op =>
     simp only [step]
     split
-    · exact ⟨⟨inv, nd⟩, ⟨[], by simp⟩, fun _ _ _ _ => rfl⟩
+    · exact stay
     · rename_i c hc
       split
       · rename_i h' r e
         have hp := C14_sep_preserved_derive inv e
-        refine ⟨⟨hp.1, ?_⟩, ⟨[r], rfl⟩, fun j b hj _ => ?_⟩
-        · refine List.nodup_append.2 ⟨nd, by simp, ?_⟩
-          intro x hx y hy
-          simp only [List.mem_cons, List.not_mem_nil, or_false] at hy
-          subst hy
-          obtain ⟨k, _, _, _, _, _, e1, _⟩ := inv.2.1 x hx
-          have := lt_next_of_some inv.1 e1
-          have := hp.2
-          omega
-        · exact C14_args_unchanged_derive inv e b (List.mem_of_getElem? hj)
-      · exact ⟨⟨inv, nd⟩, ⟨[], by simp⟩, fun _ _ _ _ => rfl⟩
+        exact ⟨⟨hp.1, nodup_append_fresh inv nd hp.2⟩, ⟨[r], rfl⟩,
+          fun j b hj _ => C14_args_unchanged_derive inv e b (List.mem_of_getElem? hj)⟩
+      · exact stay
   | mutate i op =>
     simp only [step]
     split
-    · exact ⟨⟨inv, nd⟩, ⟨[], by simp⟩, fun _ _ _ _ => rfl⟩
+    · exact stay
     · rename_i c hc
       have hcl : c ∈ st.live := List.mem_of_getElem? hc
       split
       · rename_i h' e
         refine ⟨⟨C14_sep_preserved_mutate inv hcl e, nd⟩, ⟨[], by simp⟩, fun j b hj ht => ?_⟩
-        have hne : b ≠ c := by
-          intro e'
-          subst e'
-          simp only [Step.touches, decide_eq_false_iff_not] at ht
-          have hi := (List.getElem?_eq_some_iff.1 hc)
-          have hj' := (List.getElem?_eq_some_iff.1 hj)
-          obtain ⟨hi1, hi2⟩ := hi
-          obtain ⟨hj1, hj2⟩ := hj'
-          exact ht ((List.getElem_inj nd).1 (hi2.trans hj2.symm))
-        exact C14_frame inv hcl (List.mem_of_getElem? hj) hne e
-      · exact ⟨⟨inv, nd⟩, ⟨[], by simp⟩, fun _ _ _ _ => rfl⟩
+        simp only [Step.touches, decide_eq_false_iff_not] at ht
+        exact C14_frame inv hcl (List.mem_of_getElem? hj) (index_ne nd hc hj ht) e
+      · exact stay
+  | windrose i j =>
+    simp only [step]
+    split
+    · rename_i d a hd ha
+      split
+      · rename_i h' rd ra e
+        have hp := C14_windrose_fixed inv e
+        have inv1 : Inv anyFP h' (st.live ++ [rd]) := by
+          obtain ⟨wf, ty, sep⟩ := hp.1
+          exact ⟨wf, fun c hc => ty c (List.mem_append_left _ hc),
+            fun x hx y hy => sep x (List.mem_append_left _ hx) y (List.mem_append_left _ hy)⟩
+        have nd1 : (st.live ++ [rd]).Nodup := nodup_append_fresh inv nd hp.2.2.1
+        have nd2 : (st.live ++ [rd] ++ [ra]).Nodup := by
+          refine List.nodup_append.2 ⟨nd1, by simp, ?_⟩
+          intro x hx y hy
+          simp only [List.mem_cons, List.not_mem_nil, or_false] at hy
+          subst hy
+          rcases List.mem_append.1 hx with h1 | h1
+          · have := live_lt inv x h1; have := hp.2.2.1; have := hp.2.2.2; omega
+          · simp only [List.mem_cons, List.not_mem_nil, or_false] at h1
+            have := hp.2.2.2; omega
+        exact ⟨⟨hp.1, nd2⟩, ⟨[rd, ra], by simp⟩,
+          fun j b hj _ => hp.2.1 b (List.mem_of_getElem? hj)⟩
+      · exact stay
+    · exact stay
+  | build cls mt vd dt u ap md dts vals =>
+    simp only [step]
+    have hp := C14_copying_separated inv (build_copying st.h cls mt vd dt u ap md dts vals)
+    exact ⟨⟨hp.1, nodup_append_fresh inv nd hp.2.1⟩, ⟨[_], rfl⟩,
+      fun j b hj _ => hp.2.2 b (List.mem_of_getElem? hj)⟩
+  | buildFrom cls mt vd dt u ap md dts i =>
+    simp only [step]
+    split
+    · exact stay
+    · rename_i l hl
+      split
+      · rename_i h' r e
+        unfold buildFrom at e
+        split at e
+        · rename_i v t _
+          split at e
+          · cases e
+          have e' := Except.ok.inj e
+          have hp := C14_copying_separated inv (build_copying st.h cls mt vd dt u ap md dts v)
+          unfold build at e'
+          rw [e'] at hp
+          exact ⟨⟨hp.1, nodup_append_fresh inv nd hp.2.1⟩, ⟨[r], rfl⟩,
+            fun j b hj _ => hp.2.2 b (List.mem_of_getElem? hj)⟩
+        · cases e
+      · exact stay
+  | newList v =>
+    simp only [step]
+    have fr := freshA_alloc inv.1 (.vals v false) (Or.inl ⟨v, rfl⟩)
+    have hp := fresh_inv anyFP inv (live_lt inv) fr
+    exact ⟨⟨hp.1, nodup_append_fresh inv nd fr.self_new⟩, ⟨[_], rfl⟩,
+      fun j b hj _ => hp.2 b (List.mem_of_getElem? hj)⟩
+  | newArgs l =>
+    simp only [step]
+    have fr := freshA_alloc inv.1 (.args l) (Or.inr ⟨l, rfl⟩)
+    have hp := fresh_inv anyFP inv (live_lt inv) fr
+    exact ⟨⟨hp.1, nodup_append_fresh inv nd fr.self_new⟩, ⟨[_], rfl⟩,
+      fun j b hj _ => hp.2 b (List.mem_of_getElem? hj)⟩
+  | listMut i op =>
+    simp only [step]
+    split
+    · exact stay
+    · rename_i c hc
+      have hcl : c ∈ st.live := List.mem_of_getElem? hc
+      split
+      · rename_i h' e
+        have hp := C14_frame_list inv hcl e
+        refine ⟨⟨hp.1, nd⟩, ⟨[], by simp⟩, fun j b hj ht => ?_⟩
+        simp only [Step.touches, decide_eq_false_iff_not] at ht
+        exact hp.2 b (List.mem_of_getElem? hj) (index_ne nd hc hj ht)
+      · exact stay
 
-/-- **Non-interference for every history.**  Start from separated live collections (e.g. freshly built
-    sources).  Run ANY sequence – of any length – of deriving operations and mutators of the fixed code,
-    each addressed to any live object (sources or earlier results).  Then (1) the live collections are
-    still separated, and (2) every object that was live at the start and was never itself the target of a
-    mutator reports exactly the snapshot it had at the start – whatever was derived from it and whatever
-    was done to the derived objects, and vice versa (apply the theorem from the state in which the derived
-    object appeared). -/
+/-- **Non-interference for every history.**  Start from separated live objects (e.g. nothing at all).
+    Run ANY sequence – of any length – of steps of the fixed code: building sources (from literals or
+    from a list the caller holds), deriving operations, WindRose constructions, mutators of collections,
+    the caller creating and editing his own lists and argument lists; each step addressed to any live
+    object (sources or earlier results).  Then (1) the live objects are still separated, and (2) every
+    object that was live at the start and was never itself edited in place reports exactly what it
+    reported at the start – whatever was derived from it and whatever was done to the derived objects,
+    and vice versa (apply the theorem from the state in which the derived object appeared).  For a list
+    the caller passed as an argument this is argument hygiene: neither the call nor anything done later
+    to the result changes it, and editing it later does not change the result. -/
 theorem C14_noninterference (l : List Step) (st : St) (g : Good st) :
     Good (run st l) ∧
     ∀ j b, st.live[j]? = some b → (∀ s ∈ l, s.touches j = false) →
-      obs (run st l).h b = obs st.h b := by
+      obsA (run st l).h b = obsA st.h b := by
   induction l generalizing st with
   | nil => exact ⟨g, fun _ _ _ _ => rfl⟩
   | cons s l ih =>
@@ -177,104 +395,64 @@ theorem C14_noninterference (l : List Step) (st : St) (g : Good st) :
     rw [this]
     exact hobs j b hj (ht s (List.mem_cons_self))
 
+theorem inv_empty : Inv anyFP Heap.empty [] := by
+  refine ⟨fun _ _ => rfl, ?_, ?_⟩ <;> intro c hc <;> cases hc
+
+/-- Histories may start from nothing: every source is then built by a step of the history. -/
+theorem C14_noninterference_from_empty (l : List Step) :
+    Good (run ⟨Heap.empty, []⟩ l) := (C14_noninterference l ⟨Heap.empty, []⟩ ⟨inv_empty, by simp⟩).1
+
 /-! ### Immutability -/
 
 /-- **Immutability (values, unit, datetimes, period).**  On the fixed code every mutator other than a
     metadata edit is rejected for an immutable collection, so nothing changes. -/
 theorem C14_immutable {h : Heap} {c : Nat} {s : Src} (hs : src h c = .ok s) (him : s.k.isMut = false)
-    (op : MOp) (hop : ∀ k v, op ≠ .metaSet k v) (hop' : ∀ m, op ≠ .metaReplace m) :
+    (op : MOp) (hop : ∀ k v, op ≠ .metaSet k v) (hop' : ∀ m, op ≠ .metaReplace m)
+    (hop'' : ∀ k x, op ≠ .metaAppend k x) :
     mutate .fixed h c op = .error .attr := by
   unfold mutate
   simp only [hs, bind, Except.bind, him]
   cases op with
   | metaSet k v => exact absurd rfl (hop k v)
   | metaReplace m => exact absurd rfl (hop' m)
+  | metaAppend k x => exact absurd rfl (hop'' k x)
   | cullInplace ts => by_cases hh : isHourly s.k.cls <;> simp [hh]
+  | setValues v => simp [setVals, him]
   | _ => simp
 
 /-- Derived objects do not open a route either: whatever is derived from an immutable collection and
     then mutated, the immutable collection keeps its snapshot (instance of `C14_noninterference`). -/
 theorem C14_immutable_through_derived (l : List Step) (st : St) (g : Good st) (j b : Nat)
     (hj : st.live[j]? = some b) (ht : ∀ s ∈ l, s.touches j = false) :
-    obs (run st l).h b = obs st.h b :=
+    obsA (run st l).h b = obsA st.h b :=
   (C14_noninterference l st g).2 j b hj ht
-
-/-! ### Sources, WindRose -/
-
-theorem inv_empty : Inv Heap.empty [] := by
-  refine ⟨fun _ _ => rfl, ?_, ?_⟩ <;> intro c hc <;> cases hc
-
-/-- A collection built from new parts (new header, new metadata dict, new list) is separated from
-    everything that exists: histories may start from any number of such sources. -/
-theorem C14_build_separated {h : Heap} {live : List Nat} (inv : Inv h live) (cls : Cls)
-    (mt vd : Bool) (dt u : Nat) (ap : List Nat) (md : List (Nat × MV)) (dts : List Nat) (vals : List Rat) :
-    Inv (build h cls mt vd dt u ap md dts vals).1 (live ++ [(build h cls mt vd dt u ap md dts vals).2]) := by
-  have cp : NewSpec.Copying h ⟨.new dt u (.new ap) (.new md), newVals mt vals, dts, mt, cls, vd⟩ := by
-    refine ⟨⟨_, _, _, _, rfl, fun r hr => by cases hr⟩, fun r hr => by simp [newVals] at hr, ?_⟩
-    intro v t hv hb
-    simp only [newVals, ValSrc.new.injEq] at hv
-    simp only at hb
-    rw [← hv.2, hb]; rfl
-  exact (fresh_inv inv (mkColl_fresh inv.1 cp)).1
-
-/-- **WindRose construction (fixed code)** keeps two new immutable collections: the caller's direction
-    and analysis collections – and every other live object – are unchanged, and the chart's collections
-    are separated from them (so later edits on either side do not show on the other). -/
-theorem C14_windrose_fixed {h h' : Heap} {live : List Nat} {d a rd ra : Nat} (inv : Inv h live)
-    (e : windrose .fixed h d a = .ok (h', rd, ra)) :
-    Inv h' (live ++ [rd] ++ [ra]) ∧ ∀ b ∈ live, obs h' b = obs h b := by
-  unfold windrose at e
-  cases hd : src h d with
-  | error x => simp [hd, bind, Except.bind] at e
-  | ok sd =>
-    cases ha : src h a with
-    | error x => simp [hd, ha, bind, Except.bind] at e
-    | ok sa =>
-      simp only [hd, ha, bind, Except.bind, pure, Except.pure] at e
-      split at e
-      · cases e
-      split at e
-      · cases e
-      split at e
-      · cases e
-      split at e
-      · cases e
-      rename_i h2 ra' e2
-      have e' := Except.ok.inj e
-      simp only [Prod.mk.injEq] at e'
-      obtain ⟨rfl, rfl, rfl⟩ := e'
-      have fr := mkColl_fresh inv.1 (copying_of_shape hd
-        (shape_dup sd none none none false (sd.vals.map ratMod360) sd.k.dts sd.k.cls
-          (if sd.k.cls = .hc then true else sd.k.validated)))
-      have i1 := fresh_inv inv fr
-      have i2 := C14_sep_preserved_derive i1.1 e2
-      refine ⟨i2.1, fun b hb => ?_⟩
-      rw [C14_args_unchanged_derive i1.1 e2 b (List.mem_append_left _ hb)]
-      exact i1.2 b hb
 
 /-! ### Non-vacuity and counterexamples (evaluated by the kernel) -/
 
-/-- A one-value continuous source with a non-empty metadata dict. -/
+/-- A one-value continuous source whose metadata holds a token and a nested list. -/
 def exSrc (mt : Bool) : Heap × Nat :=
-  build Heap.empty .hc mt true 0 0 [1, 1, 0, 1, 1, 23, 1, 0] [(1, "1")] [0] [5]
+  build Heap.empty .hc mt true 0 0 [1, 1, 0, 1, 1, 23, 1, 0] [(1, .tok "1"), (2, .lst ["1", "2"])] [0] [5]
 
 /-- Non-vacuity: a built source satisfies the hypothesis of the history theorem. -/
 example : Good ⟨(exSrc true).1, [(exSrc true).2]⟩ :=
-  ⟨C14_build_separated inv_empty .hc true true 0 0 _ _ _ _, by simp⟩
+  ⟨(C14_build_separated inv_empty .hc true true 0 0 _ _ _ _).1, by simp⟩
 
-/-- Non-vacuity of `C14_noninterference`: a concrete history (derive, then two mutators on the derived
-    object) really runs (two live objects) and the source keeps unit C and its single metadata key. -/
+def mdOf (h : Heap) (c : Nat) : Option (List (Nat × OV)) := (obs h c).map (·.md)
+
+/-- Non-vacuity of `C14_noninterference`: a history from the empty heap – a source, a duplicate whose
+    nested metadata list is appended to and whose unit is converted, a caller's list that is assigned to
+    the source's duplicate and edited afterwards – really runs (3 live objects), the source keeps unit C
+    and its nested list `["1","2"]`, the duplicate's nested list grew, and the caller's list still reads
+    `[7]` after the collection that received it was edited. -/
 example :
-    let st : St := ⟨(exSrc true).1, [(exSrc true).2]⟩
-    let fin := run st [.derive 0 .neg, .mutate 1 (.convUnit 1), .mutate 1 (.metaSet 2 "9")]
-    fin.live.length = 2 ∧ (obs fin.h (exSrc true).2).map (·.unit) = some 0 ∧
-      (obs fin.h (exSrc true).2).map (·.md.length) = some 1 ∧
-      (fin.live[1]?.bind (obs fin.h)).map (·.unit) = some 1 := by decide
-
-/-- Non-vacuity of `C14_frame` / `C14_immutable`: an immutable source rejects `convert_to_unit`. -/
-example : mutate .fixed (exSrc false).1 (exSrc false).2 (.convUnit 1) = .error .attr :=
-  C14_immutable (s := ⟨⟨2, 3, [0], false, .hc, true, false⟩, ⟨0, 0, 0, 1⟩, [(1, "1")],
-    [1, 1, 0, 1, 1, 23, 1, 0], [5], true⟩) rfl rfl _ (by intro k v h; cases h) (by intro m h; cases h)
+    let fin := run ⟨Heap.empty, []⟩
+      [.build .hc true true 0 0 [1, 1, 0, 1, 1, 23, 1, 0] [(1, .tok "1"), (2, .lst ["1", "2"])] [0] [5],
+       .derive 0 .dup, .mutate 1 (.metaAppend 2 "3"), .mutate 1 (.convUnit 1), .newList [7],
+       .mutate 1 (.setValuesRef 9), .mutate 1 (.setItem 0 0)]
+    fin.live.length = 3 ∧ (fin.live[0]?.bind (obs fin.h)).map (·.unit) = some 0 ∧
+      fin.live[0]?.bind (mdOf fin.h) = some [(1, .tok "1"), (2, .lst ["1", "2"])] ∧
+      fin.live[1]?.bind (mdOf fin.h) = some [(1, .tok "1"), (2, .lst ["1", "2", "3"])] ∧
+      (fin.live[2]?.map (obsA fin.h)) = some (.list [7]) := by decide
 
 /-- `r = -a; r.convert_to_unit('F')` and what `a` reports afterwards: (unit before, unit after). -/
 def cxNeg (m : Mode) : Option (Nat × Nat) :=
@@ -288,9 +466,8 @@ def cxNeg (m : Mode) : Option (Nat × Nat) :=
     | .error _ => none
   | .error _ => none
 
-/-- **Pinned tree: continuous arithmetic shares the header.**  After `r = -a; r.convert_to_unit('F')`
-    the source `a` reports unit F (its values are still in C).  Repaired by
-    fixes/C14_continuous_arithmetic_header.patch: with the fixed code `a` keeps unit C. -/
+/-- **Pinned tree: continuous arithmetic shared the header.**  After `r = -a; r.convert_to_unit('F')`
+    the source `a` reported unit F (its values still in C).  Repaired (1bbd232): `a` keeps unit C. -/
 theorem C14_continuous_arith_shares_pinned_counterexample :
     cxNeg .pinned = some (0, 1) ∧ cxNeg .fixed = some (0, 0) := by decide
 
@@ -306,27 +483,25 @@ def cxImm (m : Mode) : Option (Nat × Nat) :=
     | .error _ => none
   | .error _ => none
 
-/-- **Pinned tree: `to_immutable` shares the header** – the immutable copy changes unit when the mutable
-    source is converted.  Repaired by fixes/C14_to_immutable_header.patch. -/
+/-- **Pinned tree: `to_immutable` shared the header** (repaired: d658a02). -/
 theorem C14_to_immutable_shares_pinned_counterexample :
     cxImm .pinned = some (0, 1) ∧ cxImm .fixed = some (0, 0) := by decide
 
-/-- `g = a.get_aligned_collection(5); g.header.metadata[2] = "9"`: number of metadata keys of `a`. -/
+/-- `g = a.get_aligned_collection(5); g.header.metadata[3] = "9"`: number of metadata keys of `a`. -/
 def cxAligned (m : Mode) : Option (Nat × Nat) :=
   let (h0, a) := exSrc true
   match derive m h0 a (.aligned (.scalar 5) none none) with
   | .ok (h1, r) =>
-    match mutate m h1 r (.metaSet 2 "9") with
+    match mutate m h1 r (.metaSet 3 (.tok "9")) with
     | .ok h2 => match obs h0 a, obs h2 a with
       | some o0, some o2 => some (o0.md.length, o2.md.length)
       | _, _ => none
     | .error _ => none
   | .error _ => none
 
-/-- **Pinned tree: `get_aligned_collection` shares the metadata dict** (when it is not empty).  Repaired
-    by fixes/C14_aligned_header_metadata.patch. -/
+/-- **Pinned tree: `get_aligned_collection` shared the metadata dict** (repaired: 1e6921b). -/
 theorem C14_aligned_shares_metadata_pinned_counterexample :
-    cxAligned .pinned = some (1, 2) ∧ cxAligned .fixed = some (1, 1) := by decide
+    cxAligned .pinned = some (2, 3) ∧ cxAligned .fixed = some (2, 2) := by decide
 
 /-- `imm.convert_to_unit('F')` on an immutable collection: does it succeed? -/
 def cxImmConvert (m : Mode) : Bool :=
@@ -335,23 +510,68 @@ def cxImmConvert (m : Mode) : Bool :=
   | .ok _ => true
   | .error _ => false
 
-/-- **Pinned tree: `convert_to_unit` edits an immutable collection**; the fixed code raises
-    (fixes/C14_immutable_convert_raises.patch). -/
+/-- **Pinned tree: `convert_to_unit` edited an immutable collection**; the fixed code raises (de57997). -/
 theorem C14_immutable_convert_pinned_counterexample :
     cxImmConvert .pinned = true ∧ cxImmConvert .fixed = false := by decide
 
-/-- `imm.header.metadata[2] = "9"` on an immutable collection (fixed code): metadata keys before/after. -/
+/-- `imm.header.metadata[3] = "9"` on an immutable collection (fixed code): metadata keys before/after. -/
 def cxImmMeta : Option (Nat × Nat) :=
   let (h0, a) := exSrc false
-  match mutate .fixed h0 a (.metaSet 2 "9") with
+  match mutate .fixed h0 a (.metaSet 3 (.tok "9")) with
   | .ok h2 => match obs h0 a, obs h2 a with
     | some o0, some o2 => some (o0.md.length, o2.md.length)
     | _, _ => none
   | .error _ => none
 
 /-- **Open finding (also after the fixes): the metadata of an immutable collection can be edited through
-    its header** – the immutability theorem `C14_immutable` therefore excludes the two metadata mutators.
+    its header** – the immutability theorem `C14_immutable` therefore excludes the metadata mutators.
     known_findings.d/C14.json: C14-immutable-header-metadata-editable. -/
-theorem C14_immutable_metadata_counterexample : cxImmMeta = some (1, 2) := by decide
+theorem C14_immutable_metadata_counterexample : cxImmMeta = some (2, 3) := by decide
+
+/-- The nested list stored under metadata key `k`, as reported. -/
+def nestedAt (h : Heap) (c k : Nat) : List MV :=
+  match mdOf h c with
+  | some m => match m.find? (·.1 = k) with | some (_, .lst l) => l | _ => []
+  | none => []
+
+/-- A copy of `a` whose header copies the metadata dict *shallowly* (`dict(metadata)` instead of
+    `deepcopy`): new dict, the same nested lists; then `copy.header.metadata[2].append("3")`.
+    Returns the source's nested list before and after. -/
+def cxShallow (deep : Bool) : Option (List MV × List MV) :=
+  let (h0, a) := exSrc true
+  match src h0 a with
+  | .error _ => none
+  | .ok s =>
+    let md : MetaSrc := if deep then .new s.md else .shallow s.rmd
+    let (h1, r) := mkColl h0 ⟨.new s.hd.dtype s.hd.unit (.new s.ap) md, newVals true s.vals, s.k.dts, true,
+      s.k.cls, true⟩
+    match mutate .fixed h1 r (.metaAppend 2 "3") with
+    | .ok h2 => some (nestedAt h0 a 2, nestedAt h2 a 2)
+    | .error _ => none
+
+/-- **Why the copy of the metadata has to be deep.**  With a shallow copy of the metadata dict the nested
+    list is the source's own list: appending to it through the copy changes what the source reports
+    (`["1","2"]` becomes `["1","2","3"]`); with the deep copy that `Header.duplicate` makes the source is
+    unchanged.  (A header copy that shares nested lists is exactly what the sharing signature flags as
+    `l`.) -/
+theorem C14_shallow_metadata_copy_counterexample :
+    cxShallow false = some (["1", "2"], ["1", "2", "3"]) ∧
+    cxShallow true = some (["1", "2"], ["1", "2"]) := by decide
+
+/-- A collection whose values cell *is* the caller's list (what a values setter without `list(values)`
+    would build), then `coll[0] = 0`: the caller's list before and after. -/
+def cxAliasList (copy : Bool) : Option (ObsAny × ObsAny) :=
+  let (h0, l) := newList Heap.empty [7, 8]
+  let vals : ValSrc := if copy then .new [7, 8] false else .share l
+  let (h1, r) := mkColl h0 ⟨.new 0 0 (.new [1, 1, 0, 1, 1, 23, 1, 0]) (.new []), vals, [0, 60], true, .hd, false⟩
+  match mutate .fixed h1 r (.setItem 0 0) with
+  | .ok h2 => some (obsA h0 l, obsA h2 l)
+  | .error _ => none
+
+/-- **Why the values setter has to copy.**  If the collection kept the caller's list, `coll[0] = 0` would
+    edit the caller's list; with `list(values)` it does not. -/
+theorem C14_aliased_values_list_counterexample :
+    cxAliasList false = some (.list [7, 8], .list [0, 8]) ∧
+    cxAliasList true = some (.list [7, 8], .list [7, 8]) := by decide
 
 end LbHeap
